@@ -79,7 +79,8 @@ def make_callable(ns, world, knobs, op):
             return lambda: ns.main.main(argv)
         nspace = sync_namespace(world, knobs, op)
         # what __main__ would pass: the real path of the first file of the truth kind
-        truth_file = world.path(op["targets"][op["truth"]]["files"][0])
+        # (through the API the truth need not be the first file listed for its kind: op["truth_pos"])
+        truth_file = world.path(op["targets"][op["truth"]]["files"][op.get("truth_pos", 0)])
         return lambda: ns.conformance.ground_truth(nspace, truth_file)
     if kind == "sync_properties":
         # the two modules may be reached through symbolic links, too (other spellings are `sync`'s subject)
@@ -241,7 +242,7 @@ def _truth_info(op, snap):
     t = op["targets"].get(op["truth"])
     if not t:
         return None
-    tf = t["files"][0]
+    tf = t["files"][op.get("truth_pos", 0) if op.get("via") == "api" else 0]
     tree = _tree(snap.get(tf))
     if tree is None:
         return {"file": tf, "node": None}
@@ -329,7 +330,7 @@ def iter_targets(op):
 
 def is_truth_target(op, kind, f):
     t = op["targets"].get(op["truth"])
-    return bool(t) and kind == op["truth"] and f == t["files"][0]
+    return bool(t) and kind == op["truth"] and f == t["files"][op.get("truth_pos", 0) if op.get("via") == "api" else 0]
 
 
 # --------------------------------------------------------------------- violations
@@ -1370,6 +1371,7 @@ def enumerate_faults(sim1, seed, nsteps=24):
             ev(n, "INTERRUPT")
             # fault sequences: an interrupt, then an I/O error / a second interrupt at whatever is written next
             ev(n, "INTERRUPT", then={"kind": "IOERR", "errno": "EIO", "cut": 0.5})
+            ev(n, "INTERRUPT", then={"kind": "IOERR", "errno": "EACCES", "at": "open"})
             ev(n, "INTERRUPT", then={"kind": "INTERRUPT"})
             ev(n, "ALLOC")
             ev(n, "KILL")
